@@ -108,6 +108,14 @@ func runC12(c *runCtx) {
 				sb.WriteString("<meta name=\"description\" content=\"about charsets\">\n")
 			}
 		}
+		if r.Intn(3) == 0 {
+			// push the declaration deep into the header (still inside the default limit)
+			pad := 200 + r.Intn(2200)
+			sb.WriteString("<!-- " + strings.Repeat("padding ", pad/8) + "-->")
+			if r.Intn(2) == 0 {
+				sb.WriteString("<script>/* " + strings.Repeat("x", r.Intn(300)) + " */</script>")
+			}
+		}
 		// the declaration
 		q := []string{"\"", "'", ""}[r.Intn(3)]
 		kind := ""
@@ -151,7 +159,7 @@ func runC12(c *runCtx) {
 			continue
 		}
 		limit := uint32(3072)
-		if r.Intn(4) == 0 {
+		if r.Intn(4) == 0 || len(doc) > 3000 {
 			limit = 0
 		}
 		typ, cs := detectCharset(doc, limit)
